@@ -140,8 +140,9 @@ impl notify::EventHandler for NotifyEventHandler {
 
                 for path in event.paths {
                     let paths = match event.kind {
-                        notify::EventKind::Any | notify::EventKind::Modify(_) => vec![&*path],
-                        notify::EventKind::Create(_) => match path.parent() {
+                        // A rename changes the content of the parent directory too
+                        notify::EventKind::Create(_)
+                        | notify::EventKind::Modify(notify::event::ModifyKind::Name(_)) => match path.parent() {
                             Some(parent) => vec![&path, parent],
                             None => vec![&*path],
                         },
@@ -149,6 +150,7 @@ impl notify::EventHandler for NotifyEventHandler {
                             Some(parent) => vec![parent],
                             None => vec![],
                         },
+                        notify::EventKind::Any | notify::EventKind::Modify(_) => vec![&*path],
                         notify::EventKind::Access(_) | notify::EventKind::Other => return,
                     };
                     let ids = paths
